@@ -2,8 +2,9 @@
 from .srv import SrvFamily
 from .fe import FeFamily
 from .c20 import ValidFamily
+from .c18_extra import ProxyPeer, BeSrvWf, GpuFamily   # C18 machinery: proxy request bytes, server acks, GPU requests
 
-PROPS_MODULES = ["C01"]
+PROPS_MODULES = ["C01", "C01b"]
 RULE = ("family `fe` (peer mode): every request the real Frontend writes (all operations, lattice arguments, every config payload "
         "length class, 1..32 regions with descriptors, NEED_REPLY on/off) is compared byte for byte, and descriptor for "
         "descriptor, with the Spec encoder. family `srv` (well-formed mode): Spec-encoded requests built by the independent "
@@ -22,4 +23,5 @@ class LayoutFamily(ValidFamily):
 
 FAMILIES = [FeFamily(modes=("peer",), quick=(0, 3000, 0), thorough=(0, 60000, 0)),
             SrvFamily(modes=("wf",), quick=(2500, 0, 0), thorough=(60000, 0, 0)),
-            LayoutFamily()]
+            LayoutFamily(),
+            ProxyPeer(), BeSrvWf(), GpuFamily()]
